@@ -336,6 +336,30 @@ func resFinish(s *Summary) {
 				"three values of one controller type mounted as /pub/shelf, /adm/shelf and (next router) /shelf: %s %s answered %q, expected %q", pr.m, pr.path, w.Body.String(), pr.expect)}, nil)
 		}
 	}
+	// two controller types with the SAME type name (two packages / API versions, here two local types) under two base paths,
+	// the second one lists a guard for an action it does not implement; and two resources under one base whose names
+	// begin alike, the longer one registered second
+	r3 := rux.New()
+	r3.Resource("/v1/", mkProductV1())
+	r3.Resource("/v2/", mkProductV2())
+	r3.Resource("/api/", &Book{resImpl{"book"}})
+	r3.Resource("/api/", &BookShelf{resImpl{"bookshelf"}})
+	for _, pr := range [][3]string{{"DELETE", "/v1/product/7", "v1:Delete"}, {"GET", "/v1/product/7", "v1:Show"}, {"GET", "/v2/product/7", "v2:Show"}, {"GET", "/v2/product", "mw:v2-index;v2:Index"},
+		{"GET", "/v1/product", "v1:Index"}, {"DELETE", "/v2/product/7", "<404>"}, {"GET", "/api/book/7", "book:Show"}, {"GET", "/api/bookshelf/7", "bookshelf:Show"},
+		{"DELETE", "/api/book/7", "book:Delete"}, {"GET", "/api/book", "book:Index"}, {"GET", "/api/bookshelf", "bookshelf:Index"}} {
+		w := httptest.NewRecorder()
+		r3.ServeHTTP(w, &http.Request{Method: pr[0], URL: &url.URL{Path: pr[1]}, Header: http.Header{}, Proto: "HTTP/1.1"})
+		s.Compared++
+		got := w.Body.String()
+		if w.Code == 404 {
+			got = "<404>"
+		}
+		if got != pr[2] {
+			s.mismatch(map[string]any{"kind": "resource", "aspect": "probe", "what": fmt.Sprintf(
+				"Resource(/v1/, Product) + Resource(/v2/, another type named Product whose Uses() lists a guard for Delete, which it does not implement) + Resource(/api/, Book) + Resource(/api/, BookShelf): %s %s answered %q, expected %q",
+				pr[0], pr[1], got, pr[2])}, nil)
+		}
+	}
 	// a non-pointer or non-struct controller is rejected
 	cases := []struct {
 		name string
@@ -367,4 +391,33 @@ func (b *Shelf) Show(c *rux.Context)   { c.WriteString(b.tag + ":Show") }
 func (b *Shelf) Delete(c *rux.Context) { c.WriteString(b.tag + ":Delete") }
 func (b *Shelf) Uses() map[string][]rux.HandlerFunc {
 	return map[string][]rux.HandlerFunc{"Index": {resMw("-" + b.tag)}}
+}
+
+// resImpl: actions that say which controller value they belong to
+type resImpl struct{ tag string }
+
+func (b *resImpl) Index(c *rux.Context)  { c.WriteString(b.tag + ":Index") }
+func (b *resImpl) Show(c *rux.Context)   { c.WriteString(b.tag + ":Show") }
+func (b *resImpl) Delete(c *rux.Context) { c.WriteString(b.tag + ":Delete") }
+
+type Book struct{ resImpl }
+type BookShelf struct{ resImpl }
+
+// resImplNoDelete: index and show only; its Uses() still lists a guard for Delete (left over from an earlier version)
+type resImplNoDelete struct{ tag string }
+
+func (b *resImplNoDelete) Index(c *rux.Context) { c.WriteString(b.tag + ":Index") }
+func (b *resImplNoDelete) Show(c *rux.Context)  { c.WriteString(b.tag + ":Show") }
+func (b *resImplNoDelete) Uses() map[string][]rux.HandlerFunc {
+	return map[string][]rux.HandlerFunc{"Delete": {func(c *rux.Context) { c.AbortWithStatus(403) }}, "Index": {resMw(b.tag + "-index")}}
+}
+
+func mkProductV1() any {
+	type Product struct{ resImpl }
+	return &Product{resImpl{"v1"}}
+}
+
+func mkProductV2() any {
+	type Product struct{ resImplNoDelete }
+	return &Product{resImplNoDelete{"v2"}}
 }
